@@ -36,9 +36,9 @@ def bufOf (r : Raw) (bptr cnt : Nat) : Array Nat := (((List.range' bptr cnt).map
 
 /-- `open_bitmap_buffer` on a closed buffer whose blocks exist -/
 theorem openBitmap_closed (d : Disk) (kb : Bytes) (hclosed : d.bitmap = none) (hkb : d.raw.units[2]? = some kb)
-    (hex : ∀ i ∈ List.range' (le16 kb 39) (bitmapBlockCount d.total), i < d.raw.units.size) :
-    openBitmap d = (.ok (), { d with bitmap := some (bufOf d.raw (le16 kb 39) (bitmapBlockCount d.total)),
-                                     bitmapBlocks := List.range' (le16 kb 39) (bitmapBlockCount d.total) }) := by
+    (hex : ∀ i ∈ List.range' (le16 kb 39) (d.bmCount), i < d.raw.units.size) :
+    openBitmap d = (.ok (), { d with bitmap := some (bufOf d.raw (le16 kb 39) (d.bmCount)),
+                                     bitmapBlocks := List.range' (le16 kb 39) (d.bmCount) }) := by
   unfold openBitmap
   rw [hclosed]
   simp only [imgRead, volKeyBlock, hkb]
@@ -83,11 +83,11 @@ independent reader's `bitmapFree` lists -/
 theorem statFree_eq_reader_free (d : Disk) (kb : Bytes)
     (hclosed : d.bitmap = none) (hnb : d.bitmapBlocks.contains volKeyBlock = false)
     (hkb : d.raw.units[2]? = some kb)
-    (hcnt : (d.total + 4095) / 4096 = bitmapBlockCount d.total)
-    (hblk : ∀ k, k < bitmapBlockCount d.total →
+    (hcnt : (d.total + 4095) / 4096 = d.bmCount)
+    (hblk : ∀ k, k < d.bmCount →
       le16 kb 39 + k < d.raw.units.size ∧ (unitAt d.raw (le16 kb 39 + k)).length = 512 ∧ ∀ x ∈ unitAt d.raw (le16 kb 39 + k), x < 256) :
     ∃ fr, Read.Prodos.bitmapFree d.raw (le16 kb 39) d.total = .ok fr ∧ (statFree d).1 = .ok fr.length := by
-  have hex : ∀ i ∈ List.range' (le16 kb 39) (bitmapBlockCount d.total), i < d.raw.units.size := by
+  have hex : ∀ i ∈ List.range' (le16 kb 39) (d.bmCount), i < d.raw.units.size := by
     intro i hi
     rw [List.mem_range'_1] at hi
     have := (hblk (i - le16 kb 39) (by omega)).1
@@ -97,11 +97,11 @@ theorem statFree_eq_reader_free (d : Disk) (kb : Bytes)
   rw [hcnt] at hrd
   refine ⟨_, hrd, ?_⟩
   -- the model side
-  have hsize : (bufOf d.raw (le16 kb 39) (bitmapBlockCount d.total)).size = 512 * bitmapBlockCount d.total := by
+  have hsize : (bufOf d.raw (le16 kb 39) (d.bmCount)).size = 512 * d.bmCount := by
     unfold bufOf
     rw [List.size_toArray, List.length_flatten, List.map_map]
-    have : List.map (List.length ∘ unitAt d.raw) (List.range' (le16 kb 39) (bitmapBlockCount d.total))
-        = List.replicate (bitmapBlockCount d.total) 512 := by
+    have : List.map (List.length ∘ unitAt d.raw) (List.range' (le16 kb 39) (d.bmCount))
+        = List.replicate (d.bmCount) 512 := by
       apply List.ext_getElem
       · simp
       · intro n h1 h2
@@ -109,7 +109,7 @@ theorem statFree_eq_reader_free (d : Disk) (kb : Bytes)
         have := (hblk n (by simpa using h1)).2.1
         simpa [Nat.mul_one, Nat.one_mul] using this
     rw [this]; simp [Nat.mul_comm]
-  have hbytes : BytesOk (bufOf d.raw (le16 kb 39) (bitmapBlockCount d.total)) := by
+  have hbytes : BytesOk (bufOf d.raw (le16 kb 39) (d.bmCount)) := by
     apply bytesOk_toArray
     intro x hx
     rw [List.mem_flatten] at hx
@@ -120,8 +120,8 @@ theorem statFree_eq_reader_free (d : Disk) (kb : Bytes)
     have := (hblk (i - le16 kb 39) (by omega)).2.2
     have e : le16 kb 39 + (i - le16 kb 39) = i := by omega
     rw [e] at this; exact this x hxl
-  have hcov : d.total ≤ 8 * (bufOf d.raw (le16 kb 39) (bitmapBlockCount d.total)).size := by
-    rw [hsize]; unfold bitmapBlockCount; omega
+  have hcov : d.total ≤ 8 * (bufOf d.raw (le16 kb 39) (d.bmCount)).size := by
+    rw [hsize]; unfold Disk.bmCount bitmapBlockCount; split <;> omega
   unfold statFree getVolHeader readBlock
   simp only [bind_def, M.bind, M.get, hnb, Bool.false_eq_true, ↓reduceIte, M.lift, imgRead, volKeyBlock, hkb, pure_def, M.pure]
   unfold numFreeBlocks
